@@ -1766,6 +1766,28 @@ def ext_call(name):
             'decimal.Decimal': _decimal, 'copy.deepcopy': _copy_deepcopy, 'copy.copy': lambda i, a, k: snapshot(a[0]),
         }
     f = _EXT.get(name)
+    if f is None and name.endswith('Model.__init__'):
+        f = _peewee_model_init
     if f is not None:
         used(name)
     return f
+
+
+def _peewee_model_init(i, a, k):
+    """A-7: a peewee Model instance is a record of its declared fields: XField(default=v) -> v, otherwise None"""
+    o = a[0]
+    from .interp import Frame
+    for c in i.mro(o.cls):
+        for name, m in c.members.items():
+            if isinstance(m, (ast.Assign, ast.AnnAssign)) and isinstance(m.value, ast.Call):
+                fn = m.value.func
+                fname = fn.id if isinstance(fn, ast.Name) else getattr(fn, 'attr', '')
+                if fname.endswith('Field') and name not in o.f:
+                    val = None
+                    for kw in m.value.keywords:
+                        if kw.arg == 'default':
+                            val = i.eval(kw.value, Frame(c.mod))
+                            if isinstance(val, dict):
+                                val = dict(val)
+                    o.f[name] = val
+    return None
